@@ -2,6 +2,7 @@
 # sweep.sh TIER [SEED...] : runs every check of MANIFEST.json at the given
 # tier and seeds; prints one line per run and every VIOLATION line.
 cd "$(dirname "$0")"
+mkdir -p .work
 tier=${1:-quick}; shift
 seeds=${*:-1}
 rc=0
